@@ -135,6 +135,32 @@ def extra(r, res, run):
         bad += site_roundtrip(run, p, r["seed"])
     if r["kind"] == "self" and len(p["search"]["pos"]) >= 2:
         bad += pattern_roundtrip(run, p, r["seed"])
+    if r["kind"] == "self" and p["case"]["planted"]:
+        bad += sliced_twice(run, p, r["seed"])
+    return bad
+
+
+def sliced_twice(run, p, seed):
+    """two consecutive self-replacements with a pattern cut out of the structure itself (structure[indices] keeps the whole type table)"""
+    from mofun import replace_pattern_in_structure
+    import random
+    bad = []
+    S = p["S"]
+    with AIO.quiet():
+        St = AIO.to_atoms(dict(S, **{k: RG.empty_kind() for k, *_ in KINDS}))
+        P = St[list(p["case"]["planted"][0])]
+        random.seed(seed)
+        np.random.seed(seed % (2 ** 32))
+        s1 = replace_pattern_in_structure(St, P, P, atol=float(p["atol"]))
+        s2 = replace_pattern_in_structure(s1, P, P, atol=float(p["atol"]))
+    run.cov["evaluations"] += 2
+    run.count("kind=sliced-pattern-twice")
+    cell = np.array(S["cell"], float) / AIO.G
+    for name, x in (("first", s1), ("second", s2)):
+        msg = same_crystal(St, x, cell, 1e-6)
+        if msg:
+            bad.append("%s self-replacement with a pattern sliced from the structure changed it: %s" % (name, msg))
+            break
     return bad
 
 
